@@ -69,16 +69,17 @@ def leaf_winner_table(repo, run, rule):
     # overrides are resolved through the class of the operands)
     kinds = [('ConfigNode', {}, {})]
     if 'ConfigScalar' in repo.classes:
-        kinds += [('ConfigScalar', {'_value': 1}, {'_value': 1}), ('ConfigScalar', {'_value': 1}, {'_value': True})]
+        kinds += [('ConfigScalar', {'_fde_payload': 1}, {'_fde_payload': 1}), ('ConfigScalar', {'_fde_payload': 1}, {'_fde_payload': True}), ('ConfigScalar', {'_fde_payload': 1}, {'_fde_payload': 1.0}), ('ConfigScalar', {'_fde_payload': 'a'}, {'_fde_payload': 'b'})]
     for cls_, fa, fb in kinds:
       for a in PRIOS:
         for b in PRIOS:
             me, ot = node_obj('self', cls_, _priority=a, **fa), node_obj('other', cls_, _priority=b, **fb)
-            f = FDE(repo, stubs={'_replace_self', '_replace_other'})
-            r = fde_guard(lambda: f.call(fi, me, ot and 'p', ot) if False else f.call(fi, me, 'p', ot))
+            # (scalar operands are plain scalars of a built-in type: ConfigScalar(int), ConfigScalar(bool))
+            f = FDE(repo, stubs={'_replace_self', '_replace_other', '_is_primary_type_dynamic'}, stub=lambda n, recv, a_, k_: True if n == '_is_primary_type_dynamic' else None)
+            r = fde_guard(lambda: f.call(fi, me, 'p', ot))
             rows += 1
             exp = 'self' if P(a) > P(b) else 'other'
-            calls = [e for e in r.effects if e[0] == 'call']
+            calls = [e for e in r.effects if e[0] == 'call' and e[1] != '_is_primary_type_dynamic']
             got = getattr(r.ret, 'name', r.ret)
             okc = len(calls) == 1 and calls[0][1] == '_replace_other' and getattr(calls[0][2], 'name', None) == exp and \
                 len(calls[0][3]) >= 1 and getattr(calls[0][3][0], 'name', None) == ('other' if exp == 'self' else 'self')
